@@ -111,6 +111,24 @@ func safeReadMsg(rw *message.ReadWriter, id uint32, payload []byte, v2 bool) (va
 		return nil, false, false, false, false
 	}
 	vals = valsOf(m)
+	// the caller's buffer is the caller's: it is reused for the next packet (overwritten here, after the comparison with the
+	// original bytes in the deferred check is no longer possible - so that check is done now) and the message already
+	// handed out must stay what it was
+	for i := range payload {
+		if backing[i] != payload[i] {
+			srcMod = true
+		}
+	}
+	for i := range backing {
+		backing[i] = 0x58
+	}
+	if !reflect.DeepEqual(valsOf(m), vals) {
+		resultAliasesInput = true
+	}
+	copy(backing, payload)
+	for i := len(payload); i < len(backing); i++ {
+		backing[i] = 0xAA
+	}
 	// the caller owns what it was given: it edits the message, then the same payload is decoded once more
 	// (a repeated heartbeat) and must give the same values again
 	scribble(reflect.ValueOf(m).Elem())
@@ -119,6 +137,15 @@ func safeReadMsg(rw *message.ReadWriter, id uint32, payload []byte, v2 bool) (va
 		decodeAgainDiffers = true
 	}
 	return vals, true, false, false, false
+}
+
+// resultAliasesInput is set when a decoded message changed after the caller overwrote the buffer it had decoded from
+var resultAliasesInput bool
+
+func takeAliases() bool {
+	d := resultAliasesInput
+	resultAliasesInput = false
+	return d
 }
 
 // decodeAgainDiffers is set when decoding the same payload a second time, after the first result was edited by the
@@ -166,6 +193,7 @@ func (d *msgDriver) enc(di int, vals [][]B, v2 bool, tag string) {
 		r["dec"], r["dec_ok"], r["dec_panic"], r["src_mod"], r["tail_mod"] = [][]B{}, false, false, false, false
 	}
 	r["again_differs"] = takeAgainDiffers()
+	r["aliases_input"] = takeAliases()
 	d.rec.Put(r)
 }
 
@@ -175,7 +203,7 @@ func (d *msgDriver) dec(di int, payload B, v2 bool, tag string) {
 		dv = [][]B{}
 	}
 	d.rec.Put(M{"e": "DEC", "d": di + 1, "v2": v2, "in": payload, "ok": ok, "vals": dv, "panic": pan,
-		"src_mod": sm, "tail_mod": tm, "tag": tag, "again_differs": takeAgainDiffers()})
+		"src_mod": sm, "tail_mod": tm, "tag": tag, "again_differs": takeAgainDiffers(), "aliases_input": takeAliases()})
 }
 
 var collideDone int
